@@ -360,6 +360,24 @@ pub fn gen_mean(rng: &mut Rng, tier: &Tier) -> Vec<Case> {
             cases.push(c);
         }
     }
+    // machine integers: the division truncates toward zero (negative sums included)
+    for &n in WIDTHS.iter() {
+        for _ in 0..tier.n(20, 300) {
+            let mut c = vec![format!("new 1 mean N={} T=i64", n)];
+            for x in int_seq_in(rng, 1, 4 * n as i64 + 2) {
+                c.push(format!("f 1 {}", x));
+                if rng.chance(1, 4) {
+                    c.push("guts 1 mean".into());
+                    c.push("guts 1 weight".into());
+                }
+            }
+            if rng.chance(1, 3) {
+                c.push("reset 1".into());
+                c.push(format!("f 1 {}", rng.range(-9, 9)));
+            }
+            cases.push(c);
+        }
+    }
     // finite memory: two histories that agree on the last N samples continue identically
     for &n in &[1usize, 2, 3, 5] {
         for _ in 0..tier.n(20, 200) {
